@@ -17,7 +17,13 @@ from .extract import ExtractError
 VERIF = os.path.dirname(os.path.dirname(os.path.abspath(__file__)))
 REPO = os.environ.get("VERIF_REPO", "/repo")
 BUILD = os.path.join(VERIF, "build")
-TARGET = os.path.join(BUILD, "target")
+if REPO == "/repo":
+    TARGET = os.path.join(BUILD, "target")
+else:
+    # scratch copies (mutation tests) get their own target dir so that they never race with
+    # checks of /repo itself; the caller removes it together with the scratch copy
+    import hashlib as _h
+    TARGET = os.path.join("/tmp", "verif-target-" + _h.sha256(os.path.abspath(REPO).encode()).hexdigest()[:10])
 
 SEMANTIC = (
     "postcondition not satisfied",
@@ -213,7 +219,9 @@ def views_text(c, uninterp):
     out = ""
     if uninterp:
         for m in re.finditer(r"spec\s+fn\s+[^;]+;", c.views):
-            out += "uninterp " + " ".join(m.group(0).split()) + "\n"
+            out += "pub uninterp " + " ".join(m.group(0).split()) + "\n"
+        # users see only external (public) types, so the shared definitions can be `pub open`
+        return out + re.sub(r"^(\s*)spec fn", r"\1pub open spec fn", c.shared, flags=re.M)
     return out + c.shared
 
 
